@@ -1,3 +1,101 @@
-import Zed.Model.BranchCommit
+/-
+  C17 — a crash at any storage operation leaves the lake consistent, atomic and usable.
+  Property theorems only.  Model: the labelled transition system of DESIGN.md §4 L5
+  (Zed/Model/{StoreEngine,JournalQueue,BranchCommit}.lean), atomic puts.
+
+  A crash is a client that is never stepped again; recovery is any set of fresh client ids
+  (empty caches).  Because the theorems below hold in *every* reachable state of *every* label
+  sequence, they hold after any number of crashes at any storage operations, with any recovery
+  and follow-up activity — no bound on histories, clients or crash points.
+-/
+import Zed.Proofs.StoreJournal
 namespace Zed.Props.C17
+open Zed.Store
+
+/-- **crash_atomic** — whatever clients stopped wherever, journal j is in one of two shapes:
+    entries are exactly 1..e, every one a complete entry, and HEAD is e (nothing in flight) or
+    e-1; the second case arises exactly while the creator of entry e has not written HEAD.  So a
+    cold reader (who trusts HEAD) sees the interrupted commit entirely (HEAD = e) or not at all
+    (HEAD = e-1): the single commit point is the creation of entry e. -/
+theorem crash_atomic (j : Nat) (s : Sys) (h : Reach j s) :
+    ∃ e, (∀ n, (s.store (.ent j n)).isSome ↔ (1 ≤ n ∧ n ≤ e)) ∧
+      (∀ n v, s.store (.ent j n) = some v → ∃ acts, v = .entry acts) ∧
+      (headOf s.store j = e ∨
+        (headOf s.store j + 1 = e ∧ ∃ c, (s.cl c).pcOn j = some (.putHead e))) := by
+  obtain ⟨e, he⟩ := h.inv1
+  refine ⟨e, he.range, he.typed, ?_⟩
+  by_cases hh : headOf s.store j = e
+  · exact Or.inl hh
+  · have h1 := he.he; have h2 := he.eh
+    have hb : headOf s.store j + 1 = e := by omega
+    exact Or.inr ⟨hb, he.pend hb⟩
+
+/-- **crash_durable** — everything visible (in particular everything acknowledged: a commit is
+    acknowledged only after its HEAD write) stays visible and unchanged: for every position n at
+    or below HEAD, the entry and the table replayed up to n are the same in every later state,
+    and n stays at or below HEAD. -/
+theorem crash_durable (j : Nat) (s : Sys) (h : Reach j s) (ls : List Label) (hn : NoReset j ls)
+    (n : Nat) (hvis : n ≤ headOf s.store j) :
+    n ≤ headOf (s.run ls).store j ∧
+      (∀ m, 1 ≤ m → m ≤ n → (s.run ls).store (.ent j m) = s.store (.ent j m)) ∧
+      tableAt (s.run ls).store j n = tableAt s.store j n := by
+  obtain ⟨e, he⟩ := h.inv1
+  obtain ⟨_, _, _, hmono, hkeep⟩ := inv1_run ls he hn
+  have hent : ∀ m, 1 ≤ m → m ≤ n → (s.run ls).store (.ent j m) = s.store (.ent j m) := by
+    intro m h1 h2
+    have hsome : (s.store (.ent j m)).isSome := (he.range m).mpr ⟨h1, by have := he.he; omega⟩
+    cases hx : s.store (.ent j m) with
+    | none => rw [hx] at hsome; cases hsome
+    | some v => exact hkeep m v hx
+  refine ⟨by omega, hent, ?_⟩
+  clear hvis
+  induction n with
+  | zero => rfl
+  | succ k ih =>
+    have ih' := ih (fun m h1 h2 => hent m h1 (by omega))
+    simp only [tableAt, ih', hent (k + 1) (by omega) (Nat.le_refl _)]
+
+/-- **crash_wedged** — the general form of the defect: once a client has stopped between its
+    entry put and its HEAD put (HEAD = e-1, entry e exists), then as long as that client is not
+    resumed, HEAD never moves again and no entry is ever created again, whatever any number of
+    other (recovered, fresh) clients do: every later commit on this journal fails. -/
+theorem crash_wedged (j : Nat) (s : Sys) (h : Reach j s) (e c0 : Nat)
+    (hbehind : headOf s.store j + 1 = e) (hwho : (s.cl c0).pcOn j = some (.putHead e))
+    (ls : List Label) (hn : NoReset j ls) (hstop : ∀ l ∈ ls, l ≠ .step c0) :
+    headOf (s.run ls).store j = headOf s.store j ∧
+      (∀ n, ((s.run ls).store (.ent j n)).isSome ↔ (1 ≤ n ∧ n ≤ e)) := by
+  obtain ⟨e', he'⟩ := h.inv1
+  have hee : e' = e := (he'.ph c0 e hwho).1.symm
+  subst hee
+  obtain ⟨hw, hH⟩ := wedged_run ls ⟨he', hbehind, hwho⟩ hn hstop
+  exact ⟨hH, hw.inv.range⟩
+
+/-! ### `crash_live` is false of the current code (DESIGN §11 item 7; replayed on the real code
+    by the harness, key C17:live:head-behind-journal-end)
+
+    crash_live (full statement): for every reachable state, every journal j, a fresh client that
+    runs a commit whose constraint holds, alone, is acknowledged.                              -/
+
+/-- The witness trace on the pools journal of a fresh lake: client 0 inserts key 1 and is stopped
+    after its entry put (2 storage operations); then the fresh client 1 tries to insert key 2 and
+    runs alone until its procedure ends (10 attempts × 2 storage operations). -/
+def wedgeLabels : List Label :=
+  [.start 0 (.commit 0 0 (.insert 1 7)), .step 0, .step 0, .start 1 (.commit 0 0 (.insert 2 8))] ++
+    List.replicate 20 (.step 1)
+
+/-- **not_crash_live** — after the crash the journal shows none of client 0's commit (HEAD = 0,
+    atomic), client 1's constraint holds (key 2 is absent), and yet client 1's commit fails with
+    `journal.ErrRetriesExceeded` and leaves nothing behind. -/
+theorem not_crash_live :
+    let s := Sys.init.run wedgeLabels
+    headOf s.store 0 = 0 ∧ visibleTable s.store 0 = some [] ∧
+      (s.cl 1).res = some .retries ∧ (s.cl 1).proc = none ∧ s.store (.ent 0 2) = none := by
+  decide
+
+/-- The witness is a state of the system (non-vacuity of `crash_wedged`'s hypotheses). -/
+example : Reach 0 (Sys.init.run (wedgeLabels.take 3)) ∧
+    headOf (Sys.init.run (wedgeLabels.take 3)).store 0 + 1 = 1 ∧
+    ((Sys.init.run (wedgeLabels.take 3)).cl 0).pcOn 0 = some (.putHead 1) :=
+  ⟨⟨Sys.init, _, init_fresh, noReset_zero _, rfl⟩, by decide, by decide⟩
+
 end Zed.Props.C17
